@@ -25,7 +25,8 @@
     _multivalued_fields tables (Files, Checksums-*: property C12). *)
 From Coq Require Import String.
 From Verif Require Import Lib.Base Lib.Dec Lib.PyStr Gen.PyChars
-  Deb822.Model Deb822.Spec Deb822.ProofsStr Deb822.ProofsConsume Deb822.Proofs Deb822.ProofsMore Deb822.ProofsGpgMv Deb822.ProofsGpgMv2.
+  Deb822.Model Deb822.Spec Deb822.ProofsStr Deb822.ProofsConsume Deb822.Proofs Deb822.ProofsMore Deb822.ProofsGpgMv Deb822.ProofsGpgMv2
+  Deb822.Check Deb822.CheckProofs.
 
 (** 0. dump() writes the Policy lines of the paragraph: "Name: first" (no blank
        after the colon when the first line is empty), then the continuation lines. *)
@@ -223,9 +224,48 @@ Proof.
   discriminate (init_of_err c' ws _ _ H).
 Qed.
 
+(** 8. The bridge between the correspondence and the property: on every case of
+       the check (Deb822/Check.v) on which the implementation behaved like the
+       model ([agree]), the property as [holds] judges it on the observation is
+       true.
+
+       Side condition.  [holds] compares the observation with [expected_para] of
+       the GENERATED paragraphs ([paras]), [agree] compares it with what the
+       model reads from [input]; the [case] type does not tie [input] to [paras]
+       (the harness builds the one from the other, the type allows any pair), so
+       without a condition on that pair the implication is false (Example
+       [C02_agree_implies_holds_nonvacuous], second half).  [judged c]
+       (Deb822/CheckProofs.v): the model, run on [input], returns the expected
+       paragraphs.  It is the weakest such condition: under [agree], [holds c]
+       and [judged c] are the same boolean ([agree_holds_iff_judged]).  It is
+       [true] on every constructor other than [Doc], on malformed-stream cases
+       ([paras = None]) and when a generated paragraph is not [valid_para] or is
+       empty (there [holds] is [true] by definition). *)
+Theorem C02_agree_implies_holds :
+  forall c, judged c = true -> agree c = true -> holds c = true.
+Proof. exact agree_implies_holds. Qed.
+
+(** ... and with the side condition phrased against the Spec alone, which is
+    where the property theorems come in.  [judged_spec c]: every physical line
+    of [input] is boundary-free text followed by CR/LF characters only
+    ([line_ok]: covers LF, CRLF, mixed and missing final line ends, all eight
+    input forms), and the lines with their line ends and the comment lines
+    removed are [doc_lines lead bs] for blank lines [lead] and a [valid_blocks]
+    list [bs] - plain or clearsigned, separated by blank lines - whose paragraphs
+    are the generated ones, in order (for the constructor: at least one).  The
+    witness ([lead], [bs]) is computed by a recogniser and then checked by these
+    very predicates, so nothing is assumed about the recogniser.  Proof:
+    [judged_spec c = true -> judged c = true] by 6 ([roundtrip_any_form_any_class]
+    on the logical lines, [iter_lines_chomp]) for iter_paragraphs, and by
+    [init_of_block] / [commented_doc_structure] / [gpgmv_init_cblock] for the
+    constructor. *)
+Theorem C02_agree_implies_holds_spec :
+  forall c, judged_spec c = true -> agree c = true -> holds c = true.
+Proof. exact agree_implies_holds_spec. Qed.
+
 (** * Non-vacuity *)
 
-Definition ex_d1 : list (str * str) :=
+Definition ex_d1: list (str * str) :=
   [(dec "Package", dec "  foo \000009");
    (dec "Description", dec "short\00000a long: line\00000a .\00000a \000009#not a comment");
    (dec "X-Empty", dec "");
@@ -305,6 +345,42 @@ Example C02_dsc_changes_malformed_remark :
   /\ iter_lines CDeb822 true (dec "#c" :: ls) = Ok [[(dec "A", dec "b"); (dec "C", dec "d")]].
 Proof. vm_compute. repeat split; reflexivity. Qed.
 
+(** Two real cases (observations copied from runs of the implementation) meet
+    the hypotheses of 8 in both phrasings: Dsc.iter_paragraphs, strictness
+    False, on a list of CRLF-terminated lines without final line end - a
+    leading blank line, a comment-only block, a clearsigned paragraph with a
+    comment line inside the armour header, comment and whitespace lines in the
+    gap, a comment line inside the second paragraph; and the constructor
+    Changes(binary file) on the first half.  And the side condition cannot be
+    dropped: a case whose [input] is not a document of its [paras] has
+    [agree = true] and [holds = false]. *)
+Local Open Scope string_scope.
+Example C02_agree_implies_holds_nonvacuous :
+  let c1 := Doc 1%N false false 2%N
+    (Some [[("Source", "  foo \000009"); ("Description", "short\00000a long: line\00000a .")];
+           [("x-Multi", "\00000a first is empty")]])
+    ["Source:   foo \000009\00000aDescription: short\00000a long: line\00000a .\00000a";
+     "x-Multi:\00000a first is empty\00000a"]
+    [" \00000d\00000a"; "#block\00000d\00000a"; "\00000d\00000a";
+     "-----BEGIN PGP SIGNED MESSAGE----- \00000d\00000a"; "Hash: SHA256\00000d\00000a"; "#K: v\00000d\00000a";
+     "\00000d\00000a"; "Source:   foo \000009\00000d\00000a"; "Description: short\00000d\00000a";
+     " long: line\00000d\00000a"; " .\00000d\00000a"; "-----BEGIN PGP SIGNATURE----- \00000d\00000a";
+     "\00000d\00000a"; "iQEzBAEBCAAdFiEE\00000d\00000a"; "=AbCd\00000d\00000a";
+     "-----END PGP SIGNATURE----- \00000d\00000a"; "\00000d\00000a"; "# c\00000d\00000a"; " \00000d\00000a";
+     "\00000d\00000a"; "x-Multi:\00000d\00000a"; "##\00000d\00000a"; " first is empty"]
+    (Ok [[("Source", "foo"); ("Description", "short\00000a long: line\00000a .")];
+         [("x-Multi", "\00000a first is empty")]]) in
+  let c2 := Doc 2%N false true 5%N
+    (Some [[("Source", "  foo \000009"); ("Description", "short\00000a long: line\00000a .")]])
+    ["Source:   foo \000009\00000aDescription: short\00000a long: line\00000a .\00000a"]
+    [" \00000d\00000a#block\00000d\00000a\00000d\00000a-----BEGIN PGP SIGNED MESSAGE----- \00000d\00000aHash: SHA256\00000d\00000a#K: v\00000d\00000a\00000d\00000aSource:   foo \000009\00000d\00000aDescription: short\00000d\00000a long: line\00000d\00000a .\00000d\00000a-----BEGIN PGP SIGNATURE----- \00000d\00000a\00000d\00000aiQEzBAEBCAAdFiEE\00000d\00000a=AbCd\00000d\00000a-----END PGP SIGNATURE----- "]
+    (Ok [[("Source", "foo"); ("Description", "short\00000a long: line\00000a .")]]) in
+  let wrong := Doc 0%N true false 0%N (Some [[("A", "b")]]) ["A: b\00000a"] ["X: y\00000a"] (Ok [[("X", "y")]]) in
+  (judged_spec c1 = true /\ judged c1 = true /\ agree c1 = true /\ holds c1 = true)
+  /\ (judged_spec c2 = true /\ judged c2 = true /\ agree c2 = true /\ holds c2 = true)
+  /\ (judged wrong = false /\ judged_spec wrong = false /\ agree wrong = true /\ holds wrong = false).
+Proof. vm_compute. repeat split. Qed.
+
 Print Assumptions C02_dump_lines.
 Print Assumptions C02_dump_parse_para.
 Print Assumptions C02_dump_parse_doc.
@@ -325,3 +401,5 @@ Print Assumptions C02_constructor_reads_first_comments.
 Print Assumptions C02_constructor_reads_first_comments_any.
 Print Assumptions C02_no_fuel_error.
 Print Assumptions C02_no_fuel_error_constructor.
+Print Assumptions C02_agree_implies_holds.
+Print Assumptions C02_agree_implies_holds_spec.
